@@ -1,5 +1,6 @@
 """C11 — format/version information is the standard BCH code and is read robustly."""
 ID = 'C11'
+OPTIONAL_GROUPS = ['verif_fmt']
 EXHAUSTIVE = True
 EXHAUSTIVE_TIERS = ('thorough',)
 RULE = ('raw-word readers: all 2^15 raw words for QR and Micro QR; for rMQR all words within distance 3 of a codeword plus a seeded sample (quick) or all 2^18 '
@@ -180,6 +181,33 @@ def gen(ctx):
             put(img, c1, far_word(QRF, r))
             put(img, c2, far_word(QRF, r))
             L.append('qr.fmt %s' % img.show())
+    # the same two-copy logic through the PUBLIC API: complete reference symbols with damaged format copies
+    from checks import refqr
+    segs = [(1, b'0123456789')]
+    for idx, word in enumerate(QRF):
+        level, mask = idx >> 3, idx & 7
+        m0 = refqr.encode(1, level, mask, segs)
+        c1, c2 = qr_pos(21)
+        sub = pats15 if ctx.tier == 'thorough' else [pats15[(7 * k + idx) % len(pats15)] for k in range(6)]
+        for p in sub:
+            for variant in ('same', 'other', 'zero', 'c2'):
+                m = [row[:] for row in m0]
+
+                def putm(pos, w):
+                    for k, (x, y) in pos.items():
+                        m[y][x] = (w >> k) & 1
+                if variant == 'c2':
+                    putm(c1, far_word(QRF, r))
+                    putm(c2, word ^ p)
+                else:
+                    putm(c1, word ^ p)
+                    if variant == 'other':
+                        putm(c2, QRF[(idx + 1 + r.below(31)) % 32] ^ (1 << r.below(15) if r.chance(1, 2) else 0))
+                    elif variant == 'zero':
+                        putm(c2, 0)
+                L.append('qr.dec %s' % refqr.to_image_str(m))
+                ctx.c11_full = getattr(ctx, 'c11_full', {})
+                ctx.c11_full[L[-1]] = 'ok 1 %d %d 1 1 30313233343536373839' % (level, mask)
     pats18 = weight_le2(18)
     for idx, word in enumerate(RMV):
         w, h = [(43, 7), (77, 9), (139, 17), (27, 11)][idx % 4]
@@ -219,6 +247,8 @@ def read(img_s, pos):
 
 def expect(l):
     t = l.split()
+    if t[0] == 'qr.dec':
+        return _FULL.get(l)
     if t[0] == 'qr.fmt0':
         return exp_qr0(int(t[1]) & 0xFFFFFFFFFFFFFFFF) if int(t[1]) < (1 << 15) else None
     if t[0] == 'mq.fmt':
@@ -244,12 +274,17 @@ def expect(l):
     return None
 
 
+_FULL = {}
+
+
 def oracle(ctx, lines, out):
     v = []
     cnt = {}
+    _FULL.clear()
+    _FULL.update(getattr(ctx, 'c11_full', {}))
     for l, o in zip(lines, out):
         e = expect(l)
-        if e is None:
+        if e is None or o.startswith('bad-op'):
             continue
         oc = 'err' if o.startswith('err') else o
         if oc != e:
@@ -265,6 +300,9 @@ def oracle(ctx, lines, out):
                 else:
                     key = 'qr.fmt:first-copy'
                     detail = 'first copy 0x%04x within 2 of a codeword (%s) but the decoder answers `%s`' % (r1, e, oc)
+            elif t[0] == 'qr.dec':
+                key = 'qr.dec:two-copy'
+                detail = 'complete v1 symbol with damaged format information: DecodeBitmap answers `%s`, expected `%s` (the first copy within 2 of a codeword must win; an unreadable first copy falls back to the second)' % (oc[:60], e[:40])
             else:
                 key = t[0]
                 detail = '%s: implementation `%s`, standard `%s`' % (l[:80], oc, e)
